@@ -30,7 +30,7 @@
 #include <signal.h>
 #include <dirent.h>
 
-#define MAXK 64
+#define MAXK 120
 #define MAXS 8
 #define MAXE 8192
 #define CASE_SECONDS 20
